@@ -17,7 +17,7 @@ class Job:
     def __init__(self, name, template, bodies=(), enforce=None, harness=None, replace=(),
                  loop_contracts=False, unwind=None, defines=(), cbmc_flags=(), min_obligations=1,
                  bounded=False, timeout=None, backend=None, checks=True, vacuity=True,
-                 object_bits=None, note=None, expect_labels=(), needs=None, includes=()):
+                 object_bits=None, note=None, expect_labels=(), needs=None, includes=(), stop_on_fail=False):
         self.name = name
         self.template = template
         self.bodies = list(bodies)
@@ -37,6 +37,7 @@ class Job:
         self.object_bits = object_bits
         self.note = note
         self.expect_labels = list(expect_labels)
+        self.stop_on_fail = stop_on_fail  # one query: first failing property only (vacuity probe then runs separately)
         self.includes = list(includes)  # extra -I for goto-cc (e.g. plain C headers of /repo)
         self.needs = needs  # names of the bodies this job depends on (None = all)
 
@@ -117,6 +118,8 @@ def cbmc_pipeline(ctx, job, cfile, vac):
     base = os.path.splitext(cfile)[0]
     a, b = base + ".a.gb", base + ".b.gb"
     defs = " ".join("-D" + d for d in job.defines) + (" -DVACUITY" if vac else "")
+    if job.stop_on_fail and vac is True:
+        defs = " ".join("-D" + d for d in job.defines)  # the expected-to-fail probe would be the first failure
     tmo = job.timeout or (1800 if ctx.thorough else 240)
     cmds = []
     incs = " ".join("-I" + i for i in job.includes)
@@ -152,28 +155,71 @@ def cbmc_pipeline(ctx, job, cfile, vac):
     if job.object_bits:
         base_flags += ["--object-bits %d" % job.object_bits]
     base_flags += job.cbmc_flags
-    out = base + ".cbmc.json"
+    if job.stop_on_fail:
+        base_flags += ["--property %s.assertion.1" % job.enforce] if vac == "only" else ["--stop-on-fail"]
+    out = base + (".vac" if vac == "only" else "") + ".cbmc.json"
     # back-end portfolio: the job names one back end or a list tried in order (a timeout or an unreadable answer moves on)
     backends = job.backend if isinstance(job.backend, (list, tuple)) else [job.backend]
     t3 = 0.0
     rc = -9
     used = None
-    for bi, be in enumerate(backends):
-        flags = base_flags + ([be] if be else [])
-        share = tmo if len(backends) == 1 else max(20, int(tmo * (0.5 if bi == 0 else 0.5 / (len(backends) - 1))))
+    if len(backends) == 1:
+        flags = base_flags + ([backends[0]] if backends[0] else [])
         cmd3 = "cbmc %s %s > %s" % (b, " ".join(flags), out)
-        rc, so, se, t = _sh(cmd3, share)
-        t3 += t
+        rc, so, se, t3 = _sh(cmd3, tmo)
         cmds.append(cmd3)
-        if rc != -9:
+        used = backends[0]
+    else:
+        # race: every back end of the portfolio runs concurrently; the first complete answer wins, the others are killed
+        import signal
+        procs = []
+        t0 = time.time()
+        for bi, be in enumerate(backends):
+            flags = base_flags + ([be] if be else [])
+            o = "%s.be%d.json" % (out, bi)
+            cmd3 = "cbmc %s %s > %s" % (b, " ".join(flags), o)
+            cmds.append(cmd3)
+            p = subprocess.Popen("ulimit -v %d; %s" % (MEM_KB, cmd3), shell=True, stdout=subprocess.DEVNULL, stderr=subprocess.DEVNULL,
+                                 executable="/bin/bash", start_new_session=True)
+            procs.append((p, be, o))
+        winner = None
+        while time.time() - t0 < tmo and winner is None:
+            alive = False
+            for p, be, o in procs:
+                if p.poll() is None:
+                    alive = True
+                    continue
+                try:
+                    d = json.load(open(o))
+                    if any(("result" in e) or ("property" in e and "status" in e) for e in d):
+                        winner = (be, o)
+                        break
+                except Exception:
+                    pass
+            if not alive and winner is None:
+                break
+            if winner is None:
+                time.sleep(0.2)
+        for p, be, o in procs:
+            if p.poll() is None:
+                try:
+                    os.killpg(p.pid, signal.SIGKILL)
+                except OSError:
+                    pass
+                try:
+                    p.wait(timeout=5)
+                except Exception:
+                    pass
+        t3 = time.time() - t0
+        if winner:
+            used = winner[0]
+            os.replace(winner[1], out)
+            rc = 0
+        for p, be, o in procs:
             try:
-                d = json.load(open(out))
-                if any("result" in e for e in d):
-                    used = be
-                    break
-            except Exception:
+                os.remove(o)
+            except OSError:
                 pass
-            rc = -9 if bi + 1 < len(backends) else rc
     job.used_backend = used
     for f in (a, base + ".b.gb"):
         try:
@@ -192,6 +238,17 @@ def cbmc_pipeline(ctx, job, cfile, vac):
 def parse_results(data):
     results, msgs, verdict = [], [], None
     for e in data:
+        if "property" in e and "status" in e and "result" not in e:
+            # --stop-on-fail: only the first failing property is reported, with its trace
+            fn = e["property"].split(".")[0]
+            line = 0
+            for st in reversed(e.get("trace", [])):
+                sl = st.get("sourceLocation", {})
+                if sl.get("function") == fn and sl.get("line"):
+                    line = sl["line"]
+                    break
+            results = results + [{"property": e["property"], "description": e.get("description", ""), "status": "FAILURE",
+                                  "trace": e.get("trace", []), "sourceLocation": {"file": "@job-c-file", "function": fn, "line": line}}]
         if "result" in e:
             results = e["result"]
         if "messageText" in e:
@@ -269,7 +326,7 @@ def run_job(ctx, job):
             continue
         loc = r.get("sourceLocation", {})
         f = os.path.basename(loc.get("file", ""))
-        if f == cbase:
+        if f == cbase or f == "@job-c-file":
             user.append(r)
         elif r["status"] != "SUCCESS":
             lib_bad.append(r)
@@ -328,6 +385,9 @@ def run_job(ctx, job):
         obs.append(Obligation("%s/lib/%s" % (prefix, r["property"]), FAILED if r["status"] == "FAILURE" else UNDECIDED,
                               backend, 0, r.get("description", ""), bounded=job.bounded))
     n_real = len([o for o in obs if "/safety:" not in o.name])
+    stopped = job.stop_on_fail and any(o.status == FAILED for o in obs)
+    if stopped:
+        return obs, descs, [], cmds  # first failing property only: the other obligations were not evaluated in this run
     if n_real < job.min_obligations:
         obs.append(Obligation(prefix + "/*count", UNDECIDED, backend, 0,
                               "only %d obligations generated, spec records >= %d" % (n_real, job.min_obligations), bounded=job.bounded))
@@ -338,6 +398,11 @@ def run_job(ctx, job):
     if job.loop_contracts and not any("loop_invariant_step" in (o.detail or "") or "loop_invariant_step" in o.name for o in obs):
         obs.append(Obligation(prefix + "/*loopcontract", UNDECIDED, backend, 0, "no loop_invariant_step obligation: loop contract silently dropped", bounded=job.bounded))
     vac = []
+    if job.vacuity and job.stop_on_fail:
+        d2, _e2, _t2, _c2 = cbmc_pipeline(ctx, job, cfile, "only")
+        if d2 is not None:
+            r2, _m2, _v2 = parse_results(d2)
+            probes = [r for r in r2 if "vacuity-reach" in r.get("description", "")]
     if job.vacuity:
         # the reach probe `__CPROVER_assert(0)` placed after the requires must FAIL (assertions do not constrain the other obligations)
         vac = [("%s/vacuity:%s" % (prefix, r["property"]), r["status"] == "FAILURE") for r in probes if r.get("sourceLocation", {}).get("function") == job.enforce or not job.enforce]
